@@ -8,6 +8,8 @@ import tlc
 import att
 
 ASSUME = [
+    "while an attacher's asynchronous answer is outstanding Tor may report progress of the still unattached stream (CONTROLLER_WAIT, "
+    "REMAP from its cache): the answer still leads to the stream's one decision",
     "an attacher's 'not a circuit' answers rotate through objects of either truth value (a string, 0, '', [], False, {}, 7, ()): "
     "all are invalid answers - reported, nothing sent",
     "the via-circuit API (Circuit.stream_via / TorCircuitEndpoint) and a user-installed attacher are not mixed, and the module-wide "
@@ -126,6 +128,10 @@ def rand_script(rng, n):
             if not pend:
                 continue
             s = rng.choice(sorted(pend))
+            if rng.random() < 0.4:
+                # Tor reports progress of the still unattached stream while its answer is outstanding
+                out.append(dict(a="Progress", s=s, k=rng.choice(["CONTROLLER_WAIT", "REMAP"])))
+                continue
             pend.discard(s)
             out.append(dict(a="Answer", s=s))
         elif r < 0.92:
